@@ -69,9 +69,9 @@ Definition sah_helper : list line :=
     LText (bs "local _i=${2}");
     LText (bs "local _l=$(eval " ++ q ++ bs "echo \${#${1}[@]}" ++ q ++ bs ")");
     LText (bs "for ((_c=${_l};_c<${_i};_c++)); do");
-    LText (bs "eval " ++ q ++ bs "${1}[${_c}]=" ++ bq ++ bs "${4}" ++ bq ++ q);
+    LText (bs "eval " ++ q ++ bs "${1}[${_c}]=" ++ bq ++ bs "\${4}" ++ bq ++ q);
     LText (bs "done");
-    LText (bs "eval " ++ q ++ bs "${1}[${_i}]=" ++ bq ++ bs "${3}" ++ bq ++ q);
+    LText (bs "eval " ++ q ++ bs "${1}[${_i}]=" ++ bq ++ bs "\${3}" ++ bq ++ q);
     LClose ].
 
 Definition sch_helper : list line :=
@@ -80,8 +80,8 @@ Definition sch_helper : list line :=
     LText (bs "local _l=$(eval " ++ q ++ bs "echo \${#${2}[@]}" ++ q ++ bs ")");
     LText (bs "local _n=$(eval " ++ q ++ bs "echo \${${1}}" ++ q ++ bs ")");
     LText (bs "while [ ${_i} -lt ${_l} ]; do");
-    LText (bs "local _v=$(eval " ++ q ++ bs "echo \${${2}[${_i}]}" ++ q ++ bs ")");
-    LText (bs "eval " ++ q ++ bs "${_n}[${_i}]=" ++ bq ++ bs "${_v}" ++ bq ++ q);
+    LText (bs "local _v=$(eval " ++ q ++ bs "printf '%s' " ++ [92; 34] ++ bs "\${${2}[${_i}]}" ++ [92; 34] ++ q ++ bs ")");
+    LText (bs "eval " ++ q ++ bs "${_n}[${_i}]=" ++ bq ++ bs "\${_v}" ++ bq ++ q);
     LText (bs "_i=$((${_i}+1))");
     LText (bs "done");
     LClose ].
